@@ -1,5 +1,6 @@
 import Logrange.Proofs.Where
 import Logrange.Proofs.FIter
+import Logrange.Proofs.WhereParse
 import Logrange.Generated.C05
 /-!
 # C05 — WHERE filtering equals the reference meaning of the expression
@@ -135,6 +136,68 @@ theorem code_tables_as_modelled :
     Generated.C05.likeTestAssignsErrMsg = true ∧ Generated.C05.likeTestAssignsErrFld = true ∧
     Generated.C05.fiterNextResetsValid = true ∧ Generated.C05.fiterSetBackwardResetsValid = true ∧
     Generated.C05.fiterValidIsFltAndRange = true := by decide
+
+
+/-! ### the parser in front of the evaluator (C12's direct recursive-descent parser `Lql.dExpr`, token level) -/
+
+/-- **An unparenthesised token list is read as OR of AND of optionally negated conditions** — NOT binds tighter than
+AND, AND tighter than OR: `g1 OR g2 OR …` with `gi = x1 AND x2 AND …` and `xj = [NOT] cond` parses to exactly
+`Or [And [x…] …]`, for any number of groups and conditions (conditions with any function nesting). -/
+theorem parse_unparenthesised (g : Group) (gs : List Group) (f : Nat)
+    (hf : Lql.szExpr (exprOf g gs) ≤ f)
+    (hg : atomOk g.1 = true ∧ ∀ x ∈ g.2, atomOk x = true)
+    (hgs : ∀ g' ∈ gs, atomOk g'.1 = true ∧ ∀ x ∈ g'.2, atomOk x = true) :
+    Lql.dExpr f (tokFlat g gs) = some (exprOf g gs, []) := by
+  have hw : Lql.wfExpr (exprOf g gs) = true := by
+    simp only [exprOf, Lql.wfExpr, Bool.and_eq_true]
+    exact ⟨wfOr_orOf g hg.1 hg.2, wfOrs_orsOf gs hgs⟩
+  have := Lql.dExpr_toks (exprOf g gs) f [] hf hw (by simp [Lql.headNot]) (by simp [Lql.headNot])
+  rw [toksExpr_exprOf] at this
+  simpa using this
+
+/-- and its meaning: some group all of whose (optionally negated) conditions hold -/
+theorem unparenthesised_meaning (env : Env) (ev : Event) (g : Group) (gs : List Group) :
+    evalRef env (trExpr (exprOf g gs)) ev =
+      (g :: gs).any (fun grp => (grp.1 :: grp.2).all (fun x => x.1 != condRef env (trCond x.2) ev)) :=
+  evalRef_exprOf env ev g gs
+
+/-- **`a AND b OR NOT c AND d` parses to `Or [And [a, b], And [Not c, d]]`** for arbitrary conditions. -/
+theorem parse_or_and_not (a b c d : Lql.Cond) (f : Nat)
+    (ha : atomOk (false, a) = true) (hb : atomOk (false, b) = true) (hc : atomOk (true, c) = true)
+    (hd : atomOk (false, d) = true)
+    (hf : Lql.szExpr (exprOf ((false, a), [(false, b)]) [((true, c), [(false, d)])]) ≤ f) :
+    Lql.dExpr f (Lql.toksCond a ++ Lql.tAND :: (Lql.toksCond b ++ Lql.tOR :: Lql.tNOT :: (Lql.toksCond c ++ Lql.tAND :: Lql.toksCond d)))
+      = some (.mk (.cons (.mk (.cons (.cond false a) (.cons (.cond false b) .nil)))
+              (.cons (.mk (.cons (.cond true c) (.cons (.cond false d) .nil))) .nil)), []) := by
+  have := parse_unparenthesised ((false, a), [(false, b)]) [((true, c), [(false, d)])] f hf
+    ⟨ha, by simpa using hb⟩ (by simpa using ⟨hc, hd⟩)
+  simpa [tokFlat, tokGroup, tokAtom, exprOf, orOf, orsOf, xsOf] using this
+
+/-- **Parser and evaluator compose.** Whatever token list the parser accepts, if the builder accepts the parsed
+expression then the built filter is the reference meaning of that expression (no `wellFormed` hypothesis left: the
+parser's image is well-formed). -/
+theorem parsed_where_correct (env : Env) (f : Nat) (toks : List Lql.Tok) (e : Lql.Expr) (flt : Pred)
+    (hp : Lql.dExpr f toks = some (e, [])) (hb : buildWhere env (some (trExpr e)) = .ok flt) :
+    ∀ ev : Event, Fields.WF ev.fields → flt ev = evalRef env (trExpr e) ev ∧ flt ev = evalParsed env e ev := by
+  intro ev hev
+  have h := where_correct env (trExpr e) flt hb (parsed_wellFormed f toks e [] hp) ev hev
+  exact ⟨h, by rw [evalParsed_tr]; exact h⟩
+
+/-- **C05 headline: `SELECT … WHERE e` delivers exactly `List.filter (meaning of e)`.** For a WHERE clause whose tokens
+the parser reads as `e` and whose expression the builder accepts, reading any underlying iterator (events with
+well-formed fields, ends within `n` steps) through the filtering iterator delivers precisely the underlying events for
+which `e` holds (and whose timestamp is in the query's range) — same events, same order, once each. -/
+theorem select_where_exact {σ : Type} (env : Env) (f : Nat) (toks : List Lql.Tok) (e : Lql.Expr) (flt : Pred)
+    (I : It σ Event) (rng : Event → Bool) (n : Nat) (s : σ)
+    (hp : Lql.dExpr f toks = some (e, []))
+    (hb : buildWhere env (some (trExpr e)) = .ok flt)
+    (hex : Exhausts I n s) (hwf : ∀ ev ∈ drainIt I n s, Fields.WF ev.fields)
+    (g k : Nat) (hg : n + 1 ≤ g) (hk : n + 1 ≤ k) :
+    drain I flt rng g k (new s) = (drainIt I n s).filter (fun ev => evalParsed env e ev && rng ev) := by
+  rw [fiter_refines_filter I flt rng n s hex g k hg hk]
+  apply List.filter_congr
+  intro ev hev
+  rw [(parsed_where_correct env f toks e flt hp hb ev (hwf ev hev)).2]
 
 /-- the constants the model reads are the documented ones -/
 theorem code_constants_as_documented :
